@@ -58,7 +58,15 @@ SAFE_OVERRIDES = ("unwrap_or", "unwrap_or_default", "unwrap_or_else", "::swap_re
                   "Atomic::<", "checked_", "saturating_pow", "wrapping_pow")
 
 
+_INT_OP = re.compile(r"^<&?(?:mut )?(u8|u16|u32|u64|u128|usize|i8|i16|i32|i64|i128|isize) as std::ops::(Div|Rem|Add|Sub|Mul|Neg|Shl|Shr|DivAssign|RemAssign|AddAssign|SubAssign|MulAssign)\b")
+
+
 def _kind_of_call(name):
+    # integer arithmetic written through the operator traits (`a / b` with `a: &u16` is `<&u16 as Div<u16>>::div(a, b)`): the panic
+    # (division by zero, overflow) happens inside core, so there is no assert terminator in the caller - the call is the site
+    m = _INT_OP.match(name)
+    if m:
+        return "int-div" if m.group(2) in ("Div", "Rem", "DivAssign", "RemAssign") else "int-overflow"
     if any(s in name for s in SAFE_OVERRIDES):
         return None
     for frag, kind in MAY_PANIC:
@@ -386,6 +394,20 @@ def discharge(P, ctxs, ob):
         if g.le(dn, sn, 0) and g.le(sn, dn, 0):
             return True, "source and destination have the same (constant) length", detail
         return False, "copy call", detail
+    if kind in ("int-div", "int-overflow"):
+        detail = "%s(%s)" % (T.short(name), ", ".join(srcname(b, a) for a in t["args"][:2]))
+        if kind == "int-div" and len(args) == 2:
+            k = T.fold_int(args[1])
+            if k is not None and k != 0:
+                return True, "constant non-zero divisor", detail
+            dn, do = ax.lin(args[1], g)
+            if g.le(A.ZERO, dn, do - 1):
+                return True, "divisor > 0 by dominating conditions", detail
+            return False, "cannot show divisor != 0 (operator-trait division on integers)", detail
+        ks = [T.fold_int(a) for a in args]
+        if ks and all(k is not None for k in ks):
+            return True, "constant operands", detail
+        return False, "unchecked integer arithmetic through an operator trait can overflow", detail
     if kind == "chunks":
         k = T.fold_int(args[1]) if len(args) > 1 else None
         detail = "%s(%s)" % (T.short(name), k)
